@@ -38,6 +38,28 @@ class Evaluator:
                         self.locals.setdefault(t.id, []).append(n.value.elts[i])
                     else:
                         self.locals.setdefault(t.id, []).append(("component", n.value, i))
+        # `for t, k in pairs` with `pairs = [(<date or duration>, key) for ...]` (a local collection of tuples built once): t is the first component
+        single = {k: v[0] for k, v in self.locals.items() if counts.get(k) == 1 and len(v) == 1 and not isinstance(v[0], tuple)}
+        for n in ast.walk(fn):
+            if isinstance(n, (ast.For, ast.comprehension)):
+                src = n.iter
+                if isinstance(src, ast.Name) and src.id in single:
+                    src = single[src.id]
+                if isinstance(src, (ast.ListComp, ast.GeneratorExp)):
+                    elts = [src.elt]
+                elif isinstance(src, (ast.List, ast.Tuple)) and src.elts:
+                    elts = list(src.elts)
+                else:
+                    continue
+                tg = n.target
+                if isinstance(tg, ast.Name):
+                    for e in elts:
+                        self.locals.setdefault(tg.id, []).append(e)
+                elif isinstance(tg, (ast.Tuple, ast.List)) and all(isinstance(t, ast.Name) for t in tg.elts):
+                    for e in elts:
+                        if isinstance(e, (ast.Tuple, ast.List)) and len(e.elts) == len(tg.elts):
+                            for i, t in enumerate(tg.elts):
+                                self.locals.setdefault(t.id, []).append(e.elts[i])
         # `x.<date field> = tmp`: afterwards tmp is that date
         self.stored_as = {}
         for n in ast.walk(fn):
